@@ -63,6 +63,7 @@ type Pipe struct {
 
 	SegMode     int
 	EOFWithData bool // last segment arrives together with the end condition
+	OnWrite     func() // called at the start of every Write (an observer standing at the destination)
 	FailOnce    bool // only the WFailAt-th write call fails; later ones are accepted (and counted in AfterErr)
 	NetErr      bool // injected failures are net.Errors with Timeout() and Temporary() true
 	// Transient: byte ranges [from, to) of In inside which one Read (the
@@ -262,6 +263,9 @@ func (p *Pipe) probeSplit() {
 
 func (p *Pipe) Write(b []byte) (int, error) {
 	p.step()
+	if p.OnWrite != nil {
+		p.OnWrite()
+	}
 	call := len(p.WCalls)
 	if p.wfailed {
 		p.AfterErr += len(b)
